@@ -18,7 +18,7 @@ import (
 )
 
 // query kinds
-var kinds = []string{"projection", "analytic-select", "analytic-where", "fnkey-counting", "join", "tumbling", "global", "unnest", "regexp-digits", "regexp-alpha", "array-fns", "pctl-explicit", "pctl-default", "pctl-low", "literal-upper", "literal-lower", "column-upper", "column-lower"}
+var kinds = []string{"projection", "analytic-select", "analytic-where", "fnkey-counting", "join", "tumbling", "global", "unnest", "regexp-digits", "regexp-alpha", "array-fns", "join-dotted", "nested-dotted", "pctl-explicit", "pctl-default", "pctl-low", "literal-upper", "literal-lower", "column-upper", "column-lower"}
 
 type Side struct {
 	Kind string    `json:"kind"`
@@ -46,6 +46,10 @@ func sqlOf(kind string) string {
 		return "SELECT upper(s) AS us, count(*) AS c, collect(id) AS ids FROM stream GROUP BY upper(s), CountingWindow(2)"
 	case "join":
 		return "SELECT id, a, m.name AS name FROM stream JOIN meta m ON k = m.k"
+	case "join-dotted": // the same un-aliased item m.name: a joined column here, ...
+		return "SELECT id, m.name FROM stream JOIN meta m ON k = m.k"
+	case "nested-dotted": // ... a path into the row's own map column m there
+		return "SELECT id, m.name FROM stream"
 	case "tumbling":
 		return "SELECT k, count(*) AS c, sum(a) AS sa, collect(id) AS ids FROM stream GROUP BY k, TumblingWindow('1s') " + et.With("ms", 0, 0)
 	case "unnest":
@@ -80,7 +84,7 @@ func sqlOf(kind string) string {
 var twinOf = map[string]string{"literal-upper": "literal-lower", "literal-lower": "literal-upper", "column-upper": "column-lower", "column-lower": "column-upper"}
 
 func syncable(kind string) bool {
-	return kind == "projection" || kind == "analytic-select" || kind == "analytic-where" || kind == "join" || kind == "regexp-digits" || kind == "regexp-alpha" || kind == "array-fns" || twinOf[kind] != ""
+	return kind == "projection" || kind == "analytic-select" || kind == "analytic-where" || kind == "join" || kind == "join-dotted" || kind == "nested-dotted" || kind == "regexp-digits" || kind == "regexp-alpha" || kind == "array-fns" || twinOf[kind] != ""
 }
 
 func genRows(t *rapid.T, label string, typed int) []gen.Row {
@@ -129,6 +133,9 @@ func genCase(t *rapid.T) Case {
 		if tw := twinOf[c.A.Kind]; tw != "" && rapid.IntRange(0, 3).Draw(t, "twin") > 0 {
 			b.Kind = tw
 		}
+		if strings.HasSuffix(c.A.Kind, "-dotted") && rapid.IntRange(0, 3).Draw(t, "dottedtwin") > 0 {
+			b.Kind = map[string]string{"join-dotted": "nested-dotted", "nested-dotted": "join-dotted"}[c.A.Kind]
+		}
 		if strings.HasPrefix(c.A.Kind, "pctl-") && rapid.IntRange(0, 3).Draw(t, "pctltwin") > 0 {
 			b.Kind = rapid.SampledFrom([]string{"pctl-explicit", "pctl-default", "pctl-low"}).Draw(t, "pctlkind")
 		}
@@ -167,6 +174,9 @@ func engineRow(kind string, r gen.Row, i int) map[string]any {
 		m["arr"] = mk(i%5, 2+i%4)
 		m["arr2"] = mk((i+3)%7, 1+i%3)
 		m["darr"] = mk((i+1)%5, 3+i%3) // moved under d below
+	}
+	if kind == "nested-dotted" {
+		m["m"] = map[string]any{"name": "own-" + r["s"].S, "k": "x"}
 	}
 	if kind == "column-upper" || kind == "column-lower" {
 		m["K"] = "UP-" + r["s"].S // another column than k
@@ -209,7 +219,7 @@ func open(kind, label string, res *pbt.Result) *session {
 		return nil
 	}
 	in.KeepRaw = true
-	if kind == "join" {
+	if kind == "join" || kind == "join-dotted" {
 		rows := []map[string]any{{"k": "k1", "name": "one"}, {"k": "k2", "name": "two"}, {"k": "zz", "name": "sentinel"}}
 		if _, err := in.S.RegisterTable("meta", rows); err != nil {
 			res.Add(pbt.D("execute-error", "%s: RegisterTable: %v", label, err))
@@ -311,6 +321,18 @@ func (s *session) finish(n int) [][]map[string]any {
 		}
 		if len(batch) > 0 {
 			out = append(out, batch)
+		}
+	}
+	// for the two kinds that write the same item text m.name, the documented output name is part of the oracle: state
+	// kept per process cannot hide behind "alone and paired agree"
+	if want, ok := map[string]string{"nested-dotted": "m.name", "join-dotted": "name"}[s.kind]; ok {
+		for _, b := range out {
+			for _, r := range b {
+				if _, has := r[want]; !has || len(r) != 2 {
+					s.res.Add(pbt.D("wrong-output-name", "%s (%s): result %v, want the columns id and %s", s.label, s.kind, r, want))
+					break
+				}
+			}
 		}
 	}
 	s.in.Stop()
